@@ -134,9 +134,14 @@ Definition sanity_loop (D : tenv) :=
                 if c then (if check_wf D (td_body d) then go r else Ok false) else Ok false
     end.
 
+(* the per-definition condition of the first pass (well formed, and the mode of the body is the mode
+   SetModalityTypeDef assigned to the definition) *)
+Definition sanity_pred (D : tenv) (d : tdef) : bool :=
+  check_wf D (td_body d) && mode_eqb (mode_of (td_body d)) (td_mode d).
+
 Lemma sanity_typedefs_eq : forall D, sanity_typedefs D =
   if has_dup (map td_name D) then Ok false
-  else if negb (forallb (fun d => check_wf D (td_body d)) D) then Ok false
+  else if negb (forallb (sanity_pred D) D) then Ok false
   else sanity_loop D D.
 Proof. reflexivity. Qed.
 
@@ -164,15 +169,18 @@ Proof.
   destruct Hd as [Hd|Hd]; [subst; auto | auto].
 Qed.
 
-Lemma forallb_bodies_wf : forall D, forallb (fun d => check_wf D (td_body d)) D = true -> bodies_wf D.
-Proof. intros D H d Hd. rewrite forallb_forall in H. apply H; auto. Qed.
+Lemma forallb_bodies_wf : forall D, forallb (sanity_pred D) D = true -> bodies_wf D.
+Proof.
+  intros D H d Hd. rewrite forallb_forall in H. specialize (H d Hd). unfold sanity_pred in H.
+  apply andb_prop in H. exact (proj1 H).
+Qed.
 
 (* SanityChecksTypeDefinitions always returns (no panic on an undefined label, no runaway recursion) *)
 Theorem sanity_typedefs_total : forall D, exists b, sanity_typedefs D = Ok b.
 Proof.
   intro D. rewrite sanity_typedefs_eq.
   destruct (has_dup (map td_name D)); [eexists; reflexivity|].
-  destruct (forallb (fun d => check_wf D (td_body d)) D) eqn:Hf; cbn; [|eexists; reflexivity].
+  destruct (forallb (sanity_pred D) D) eqn:Hf; cbn; [|eexists; reflexivity].
   apply sanity_loop_total; auto. apply forallb_bodies_wf; auto.
 Qed.
 
@@ -180,7 +188,7 @@ Lemma wf_env_bodies : forall D, wf_env D -> bodies_wf D.
 Proof.
   unfold wf_env. intros D H. rewrite sanity_typedefs_eq in H.
   destruct (has_dup (map td_name D)); [discriminate|].
-  destruct (forallb (fun d => check_wf D (td_body d)) D) eqn:Hf; cbn in H; [|discriminate].
+  destruct (forallb (sanity_pred D) D) eqn:Hf; cbn in H; [|discriminate].
   apply forallb_bodies_wf; auto.
 Qed.
 
@@ -188,7 +196,7 @@ Lemma wf_env_contractive : forall D, wf_env D -> forall d, In d D -> contractive
 Proof.
   unfold wf_env. intros D H. rewrite sanity_typedefs_eq in H.
   destruct (has_dup (map td_name D)); [discriminate|].
-  destruct (forallb (fun d => check_wf D (td_body d)) D) eqn:Hf; cbn in H; [|discriminate].
+  destruct (forallb (sanity_pred D) D) eqn:Hf; cbn in H; [|discriminate].
   apply sanity_loop_inv; auto.
 Qed.
 
